@@ -6,7 +6,7 @@ from hypothesis import strategies as st
 
 from harness import gen
 from harness.algebras import natural_key, show
-from harness.common import (build, close, exc_label, float_ref, is_expr, n_ops, node_kinds, pvals_of,
+from harness.common import (decoy_model, build, close, exc_label, float_ref, is_expr, n_ops, node_kinds, pvals_of,
                             quiet, thresholds, to_float)
 from harness.engine import Result
 
@@ -47,8 +47,17 @@ def cases(draw, tier="quick"):
             "config": cfg, "newp": newp, "order2": order2, "order3": order3}
 
 
+@st.composite
+def wide_cases(draw):
+    # vectors of 64-100 elements against natural / reversed / rotated / interleaved / permuted variable lists
+    env, recipe, order, pts, layout = draw(gen.wide_vec())
+    order2 = order[1:] + order[:1] if draw(st.booleans()) else order[::-1]
+    return {"env": env, "expr": recipe, "order": order, "stratum": "wide-" + layout, "points": pts, "config": "default",
+            "newp": {}, "order2": order2, "order3": None}
+
+
 def strategy(tier):
-    return cases(tier)
+    return st.one_of(*([cases(tier)] * 11), wide_cases())
 
 
 def sample_repr(case):
@@ -63,6 +72,8 @@ def check(case):
     classes = ["cfg:" + case["config"], "V:" + case["stratum"]] + ["node:" + k for k in node_kinds(recipe)]
     thr = 1 if case["config"] == "lowthr" else None
     with thresholds(thr), quiet():
+        if decoy_model(env, recipe, len(show(recipe))):
+            classes.append("after-name-equal-sibling-model")
         try:
             b, e = build(env, recipe)
         except Exception as ex:
